@@ -99,6 +99,46 @@ def opT2T : R (List String) := do
     pure (["ok"] ++ encToks r.toks ++ encTxtPos (r.txt, r.pos) ++ encParts r.parts
           ++ (toString r.unknowns.length :: r.unknowns.map encStr) ++ encDiags r.diags ++ [encBool r.foreign])
 
+/-! cleveref: the hand-written matchers against Python `re` (harness/corr_cref.py) -/
+
+/-- SEDLINE line → the three patterns tried independently, with `re_remove_escaped_symbols` of the
+    replacement group:  ok | r? name star label repl clean | g? name star l1 l2 repl clean | c? name cC nargs repl clean -/
+def opSedLine : R (List String) := do
+  let s ← str
+  let r := match Cleveref.matchRef s with
+    | some m => ["1", encStr m.name, encStr m.star, encStr m.label, encStr m.repl, encStr (Cleveref.removeEscaped m.repl)]
+    | none => ["0"]
+  let g := match Cleveref.matchRange s with
+    | some m => ["1", encStr m.name, encStr m.star, encStr m.label1, encStr m.label2, encStr m.repl,
+                 encStr (Cleveref.removeEscaped m.repl)]
+    | none => ["0"]
+  let c := match Cleveref.matchCmd s with
+    | some m => ["1", encStr m.name, encBool m.cC, toString m.nargs, encStr m.repl, encStr (Cleveref.removeEscaped m.repl)]
+    | none => ["0"]
+  pure (["ok"] ++ r ++ g ++ c)
+
+def encPairs (t : List (Str × Str)) : List String :=
+  toString t.length :: (t.map (fun e => [encStr e.1, encStr e.2])).flatten
+def encTriples (t : List ((Str × Str) × Str)) : List String :=
+  toString t.length :: (t.map (fun e => [encStr e.1.1, encStr e.1.2, encStr e.2])).flatten
+
+/-- SEDFILE text → the body of `h_read_sed` behind the file access, run on an empty macro table:
+    ok nMacros (name args nRepl toks… handler)* diags | fatal msg -/
+def opSedFile : R (List String) := do
+  let sed ← str
+  match readSedText PT sed ({} : PState) with
+  | .fatal m => pure ["fatal", encStr m]
+  | .crash c => pure ["crash", c]
+  | .outOfFuel => pure ["fuel"]
+  | .ok (_, st) =>
+    pure (["ok", toString st.macros.length] ++
+      (st.macros.map (fun m => [encStr m.name, encStr m.args] ++ encToks m.repl ++
+        (match m.handler with
+         | .none => ["n"]
+         | .cref a b => ["c"] ++ encPairs a ++ encPairs b
+         | .crefrange a b => ["r"] ++ encTriples a ++ encTriples b
+         | _ => ["?"]))).flatten ++ encDiags st.diags)
+
 /-- the JSON value of one field, by a tag: n (missing) | i <int> | t | f | s | d | z | a | o -/
 def jfield : R (Option Json) := do
   let tag ← next
@@ -227,6 +267,8 @@ def dispatch (op : String) : R (List String) :=
   | "HIGHLIGHT" => opHighlight
   | "ADDLINES" => opAddLines
   | "HTMLTEXT" => opHtmlText T
+  | "SEDLINE" => opSedLine
+  | "SEDFILE" => opSedFile
   | _ => throw s!"unknown op {op}"
 
 def handle (line : String) : String :=
